@@ -914,6 +914,36 @@ impl Printer {
         }
     }
 
+    /// precedence of a binary operator (the documented, Rust-like one): a larger number binds tighter
+    fn prec(op: BinOp) -> u8 {
+        match op {
+            BinOp::Mul | BinOp::Div | BinOp::Rem => 10,
+            BinOp::Add | BinOp::Sub => 9,
+            BinOp::Shl | BinOp::Shr => 8,
+            BinOp::BitAnd => 7,
+            BinOp::BitXor => 6,
+            BinOp::BitOr => 5,
+            BinOp::Lt | BinOp::Gt | BinOp::Le | BinOp::Ge => 4,
+            BinOp::Eq | BinOp::Ne => 3,
+            BinOp::And => 2,
+            BinOp::Or => 1,
+        }
+    }
+
+    /// an operand of a binary operator: a binary operand is written WITHOUT parentheses wherever
+    /// precedence and left-associativity make them redundant, so that the parser's grouping is
+    /// exercised (comparisons are never chained without parentheses)
+    fn bin_operand(&mut self, parent: BinOp, e: &Expr, left: bool) -> TokSpan {
+        if let ExprKind::Bin(child, _, _) = &e.kind {
+            let (pp, pc) = (Self::prec(parent), Self::prec(*child));
+            let both_compare = (3..=4).contains(&pp) && (3..=4).contains(&pc);
+            if !both_compare && (pc > pp || (pc == pp && left)) {
+                return self.expr(e);
+            }
+        }
+        self.operand(e)
+    }
+
     fn block_body(&mut self, ss: &[Stmt]) {
         self.indent += 1;
         self.nl();
@@ -944,9 +974,9 @@ impl Printer {
                 (k, s.1)
             }
             ExprKind::Bin(op, a, b) => {
-                let sa = self.operand(a);
+                let sa = self.bin_operand(*op, a, true);
                 self.tok(op.sym());
-                let sb = self.operand(b);
+                let sb = self.bin_operand(*op, b, false);
                 (sa.0, sb.1)
             }
             ExprKind::Cast(a, t) => {
